@@ -17,6 +17,9 @@ import (
 // BMC work can be sharded over processes: this process handles configurations with index%shardM == shardR
 var shardR, shardM = 0, 1
 
+// number of configurations solved concurrently inside one process
+var l2Parallel = 8
+
 type initLoc struct {
 	Shape  *Shape
 	Leaves []*Term
@@ -102,7 +105,10 @@ func (r *l2Run) runPath(prefix []bool, target int) (restart bool) {
 	r.paths++
 	switch end {
 	case "restart":
-		return true
+		// a new fact about the shared state invalidated this path; the registry is marked as changed,
+		// so the whole iteration is repeated, but the remaining paths of this iteration are still
+		// explored to discover as many facts as possible per iteration
+		return false
 	case "panic":
 		// a panic inside a thread on this path: record as an always-failing assertion block
 		if e.ev.cur != nil || e.ev.active {
@@ -391,13 +397,43 @@ func runL2Harness(prog *ssa.Program, pkg *ssa.Package, name, mode, solverName st
 	}
 	sort.Strings(keys)
 	res.ConfigKeys = keys
+	var bs []*bmc
 	for ki, k := range keys {
 		if shardM > 1 && ki%shardM != shardR {
 			continue
 		}
-		cfg := run.configs[k]
-		b := newBMC(e, run.reg, cfg, name)
-		b.run(&res)
+		b := newBMC(e, run.reg, run.configs[k], name)
+		b.prepare(&res)
+		bs = append(bs, b)
+	}
+	// the configurations are independent: solve them concurrently (terms are read-only from here on)
+	var mu sync.Mutex
+	var wg sync.WaitGroup
+	sem := make(chan struct{}, l2Parallel)
+	var firstErr string
+	for _, b := range bs {
+		wg.Add(1)
+		go func(b *bmc) {
+			defer wg.Done()
+			defer func() {
+				if r := recover(); r != nil {
+					mu.Lock()
+					if firstErr == "" {
+						if ee, ok := r.(engineError); ok {
+							firstErr = ee.msg
+						} else {
+							firstErr = fmt.Sprintf("internal error: %v", r)
+						}
+					}
+					mu.Unlock()
+				}
+			}()
+			b.solve(&res, &mu, sem)
+		}(b)
+	}
+	wg.Wait()
+	if firstErr != "" {
+		panic(engineErr("%s", firstErr))
 	}
 	res.SolverS = e.solver.Seconds
 	return
